@@ -3,11 +3,16 @@ Proof gate (Properties/C20.v) + correspondence of Model/K15_HistKDE.v with vecto
 (HistogramVectorizer: fitted bins read as exact rationals, CHECKED for the chain hypothesis inside Coq, rows of
 `transform` for list / ndarray / Series inputs compared with the model's cut) + property oracle (the statement of
 C20 evaluated directly on the implementation's bins and rows; KDE rows: >= 0, permutation invariant, equal to the
-mean of Gaussians)."""
+mean of kernels) + correspondence of Model/K15_KDEexec.v (Properties/C20_kde.v) with vectorizers/kde_vectorizer.py:
+the KDE row model is EXECUTED in Coq over binary64 (Model/K15_KDE_Float.v, exp = the series of Model/K13_Float.v) on the
+fitted evaluation grid / bandwidth read from the estimator and compared with the rows of `transform` for every kernel;
+the model of the grid chosen by fit (exact rationals) is compared with evaluation_grid_, the model of the bandwidth
+candidates (binary64) with the array fit hands to the jack-knife search, the selection with bandwidth_."""
 import math
 from fractions import Fraction
 
 from . import common as C
+from .c18 import sf2float, fcoq, flist
 
 HEADER = """From Coq Require Import QArith List ZArith.
 From VZ Require Import Model.K15_HistKDE.
@@ -18,9 +23,77 @@ Definition enc_bins (bs : list bin) : list (list (list Z)) := map (fun b => [enc
 Definition enc_opt (o : option (list bin)) : list (list (list Z)) := match o with None => [] | Some b => enc_bins b end.
 Definition enc_qs (l : list Q) : list (list Z) := map (fun q => [Qnum q; Zpos (Qden q)]) l.
 Definition tab (l : list Q) (k : nat) : Q := nth k l (Qmake 0%Z 1%positive).
+Fixpoint zrange (fuel : nat) (i : Z) : list Z := match fuel with O => [] | S f => i :: zrange f (i + 1)%Z end.
+Definition gen_seq_q (n p q : Z) (lo scale : Q) (m : Z) (drift : Q) : list Q :=
+  map (fun i => lo + inject_Z ((i * p) mod q) * scale + inject_Z (i / m) * drift) (zrange (Z.to_nat n) 0%Z).
 """
 
+KHEADER = """From Coq Require Import QArith ZArith List PrimFloat.
+From VZ Require Import Model.K12_Float Model.K13_Float Model.K15_HistKDE Model.K15_KDEexec Model.K15_KDE_Float.
+Import ListNotations.
+Open Scope float_scope.
+Definition enc_qs (l : list Q) : list (list Z) := map (fun q => [Qnum q; Zpos (Qden q)]) l.
+Definition unopt (o : option (list SpecFloat.spec_float)) := match o with Some l => l | None => [] end.
+Fixpoint zrange (fuel : nat) (i : Z) : list Z := match fuel with O => [] | S f => i :: zrange f (i + 1)%Z end.
+Definition gen_seq_f (n p q : Z) (lo scale : float) (m : Z) (drift : float) : list float :=
+  map (fun i => lo + f_of_Z ((i * p) mod q) * scale + f_of_Z (i / m) * drift) (zrange (Z.to_nat n) 0%Z).
+"""
+KERNELS = ["gaussian", "tophat", "epanechnikov", "exponential", "linear", "cosine"]
+KNORM = {"gaussian": 1 / math.sqrt(2 * math.pi), "tophat": 0.5, "epanechnikov": 0.75, "exponential": 0.5, "linear": 1.0,
+         "cosine": math.pi / 4}
+COMPACT = {"tophat", "epanechnikov", "linear", "cosine"}
+# tolerances (stated in evidence)
+KTOL = {"row_rel": 1e-9, "row_abs": 1e-12, "perm_rel": 1e-10, "perm_abs": 1e-14, "grid_rel": 1e-12, "cands_rel": 1e-11,
+        "transcendental_rel": 1e-14}
+
 INF, NINF = "inf", "-inf"
+
+
+# ------------------------------------------------------------------ long sequences, kept compact in the case
+def expand_seq(s):
+    """A sequence is a list of numbers, or {"gen": [n, p, q, lo, scale, m, drift]} for a long one:
+    x_i = lo + ((i * p) % q) * scale + (i // m) * drift  (every term is a dyadic number: exact in binary64 and in Q).
+    The drift makes consecutive stretches of the sequence differ, so that processing it in pieces shows."""
+    if isinstance(s, dict):
+        n, p, q, lo, scale, m, drift = s["gen"]
+        return [lo + ((i * p) % q) * scale + (i // m) * drift for i in range(n)]
+    return s
+
+
+_TESTS = {}
+
+
+def tests_of(c):
+    k = id(c)
+    if k not in _TESTS:
+        _TESTS[k] = (c, [expand_seq(s) for s in c["test"]])
+    return _TESTS[k][1]
+
+
+def gen_spec(rng, n):
+    q = rng.choice([101, 127, 61, 251])
+    p = rng.choice([37, 29, 53, 17])
+    return {"gen": [n, p, q, float(rng.choice([-6, -3, 0, 1])), rng.choice([0.125, 0.25, 0.0625]),
+                    rng.choice([100, 512, 700, 333]), rng.choice([0.5, 0.25, 1.0])]}
+
+
+# block sizes a piecewise implementation might use, plus one: lengths that are NOT a multiple of them
+LONG_LENGTHS = [1025, 1500, 2500, 5000]
+MORE_LENGTHS = [65, 129, 257, 513, 2049, 4097, 3000, 1023, 1024, 2048]
+
+
+def coq_seq_q(s):
+    if isinstance(s, dict):
+        n, p, q, lo, scale, m, drift = s["gen"]
+        return "(gen_seq_q %d%%Z %d%%Z %d%%Z %s %s %d%%Z %s)" % (n, p, q, coq_q(Fraction(lo)), coq_q(Fraction(scale)), m, coq_q(Fraction(drift)))
+    return coq_qlist([Fraction(x) for x in s])
+
+
+def coq_seq_f(s):
+    if isinstance(s, dict):
+        n, p, q, lo, scale, m, drift = s["gen"]
+        return "(gen_seq_f %d%%Z %d%%Z %d%%Z %s %s %d%%Z %s)" % (n, p, q, hx(lo), hx(scale), m, hx(drift))
+    return flist([float(x).hex() for x in s])
 
 
 # ------------------------------------------------------------------ exact values
@@ -132,25 +205,78 @@ def gen_hist(rng):
 
 
 def gen_kde(rng):
-    bw = rng.choice([0.1, 0.5, 1.0, 2.5, 0.3, None])
+    kernel = rng.choice(["gaussian", "gaussian"] + KERNELS)
+    bw = rng.choice([0.5, 1.0, 2.5, 0.25, 0.1, 0.3, 0.5, None])
+    n = rng.choice([1, 2, 3, 5, 9, 4])
+    strategy = rng.choice(["uniform", "density"])
     nseq = rng.randint(1, 3)
-    train = [[rng.randint(-40, 40) / 4.0 for _ in range(rng.randint(2, 6))] for _ in range(nseq)]
+    min_len = 2 if bw is None else 1      # the jack-knife search leaves one value out: it needs >= 2 values per sequence
+    ints = rng.random() < 0.15
+    val = (lambda: float(rng.randint(-10, 10))) if ints else (lambda: rng.randint(-40, 40) / 4.0)
+    train = [[val() for _ in range(rng.randint(min_len, 6))] for _ in range(nseq)]
     if len(set(x for s in train for x in s)) < 2:
-        train[0][0] += 1.0
+        train[0] = train[0] + [train[0][0] + 1.0]
+    flat = [x for s in train for x in s]
+    lo, hi = min(flat), max(flat)
+    # the uniform grid, exact when n - 1 is a power of two (dyadic training values): used to put values AT distance h
+    ugrid = [lo + i * ((hi - lo) / (n - 1)) for i in range(n)] if n > 1 else [lo]
+    h0 = bw if bw is not None else 0.5
+    edge = [g + sgn * h0 for g in ugrid for sgn in (-1, 1)]
+    edge += [math.nextafter(e, math.inf) for e in edge[:2]] + [math.nextafter(e, -math.inf) for e in edge[:2]]
+    far = [100.0, -37.5, 1e6, -1e6, hi + 40 * h0 + 1.0, lo - 40 * h0 - 1.0]
     test = []
     for _ in range(rng.randint(1, 4)):
-        L = rng.choice([1, 2, 3, 5, 8])
-        seq = [rng.choice([rng.randint(-40, 40) / 4.0, rng.uniform(-12, 12), 100.0, -37.5]) for _ in range(L)]
+        L = rng.choice([1, 1, 2, 3, 5, 8])
+        seq = []
+        for _ in range(L):
+            q = rng.random()
+            seq.append(val() if q < 0.35 else rng.uniform(-12, 12) if q < 0.55 and not ints else rng.choice(edge) if q < 0.75 and not ints
+                       else rng.choice(flat) if q < 0.85 else rng.choice(far))
         if rng.random() < 0.4:
-            seq += [seq[0]] * rng.randint(1, 2)
+            seq += [seq[0]] * rng.randint(1, 2)               # duplicated values
+        if ints:
+            seq = [float(round(x)) for x in seq]
         test.append(seq)
+    if rng.random() < 0.15:
+        test.append([rng.choice(far)] * rng.randint(1, 2))       # everything far outside the grid: the row underflows to 0
+    if rng.random() < 0.12:
+        # longer than KernelDensity's leaf_size (40): the tree has inner nodes, whose bounds must not be used to approximate
+        c1, c2 = rng.uniform(-10, 10), rng.uniform(-10, 10)
+        test.append([(round(rng.gauss(c1, 1.5)) if ints else rng.gauss(c1, 0.7) if rng.random() < 0.6 else rng.gauss(c2, 2.0)) * 1.0
+                     for _ in range(rng.randint(60, 130))])
     perms = []
     for s in test:
         p = list(range(len(s)))
         rng.shuffle(p)
         perms.append(p)
-    return {"kind": "kde", "bandwidth": bw, "n": rng.choice([1, 2, 5, 9]), "grid": rng.choice(["uniform", "density"]),
-            "train": train, "test": test, "perms": perms}
+    types = ["ndarray", "list"] + rng.sample(["tuple", "f32", "int"], rng.randint(0, 1))
+    allv = [x for s in test for x in s]
+    if "int" in types and any(x != int(x) for x in allv):
+        types.remove("int")
+    import struct
+    if "f32" in types and any(struct.unpack("f", struct.pack("f", x))[0] != x for x in allv):
+        types.remove("f32")
+    return {"kind": "kde", "kernel": kernel, "bandwidth": bw, "n": n, "grid": strategy, "train": train,
+            "train_type": rng.choice(["ndarray", "ndarray", "list"]), "test": test, "perms": perms, "types": types}
+
+
+def gen_kde_long(rng, n):
+    """A KDE case whose first test sequence has n values (compact spec), transformed together with a short one."""
+    c = gen_kde(rng)
+    short = [x for x in c["test"][0][:5]]
+    c["test"] = [gen_spec(rng, n), short]
+    p = list(range(len(short)))
+    rng.shuffle(p)
+    c["perms"] = [{"seed": rng.randrange(10 ** 6)}, p]
+    c["types"] = ["ndarray", "list"]
+    return c
+
+
+def gen_hist_long(rng, n):
+    c = gen_hist(rng)
+    c["test"] = [gen_spec(rng, n)] + c["test"][:1]
+    c["types"] = ["list", "ndarray", "series"]
+    return c
 
 
 CORPUS = [
@@ -165,6 +291,15 @@ CORPUS = [
     {"kind": "hist", "strategy": "quantile", "n": 3, "a0": 0.0, "a1": INF, "outlier": False,
      "train": [[1.0, 2.0, 3.0, 4.0, 5.0, 6.0], [2.5, 3.0, 3.0, 7.0]], "train_type": "list",
      "test": [[1.0, 3.0, 6.0, 7.0, 0.0, 1e300]], "types": ["list", "ndarray", "series"]},
+    # KDE: values exactly at distance h of a grid point (finite-support kernels vanish there), far outside, one value
+    {"kind": "kde", "kernel": "tophat", "bandwidth": 0.5, "n": 5, "grid": "uniform", "train": [[1.0, 3.0], [2.0]],
+     "train_type": "list", "test": [[1.5, 2.0, 2.5], [1.0], [100.0, 2.25, -37.5, 2.0]], "perms": [[2, 0, 1], [0], [1, 0, 3, 2]],
+     "types": ["ndarray", "list", "tuple"]},
+    {"kind": "kde", "kernel": "gaussian", "bandwidth": None, "n": 4, "grid": "density",
+     "train": [[1.0, 2.0, 4.0, 4.0], [1.5, 3.0]], "train_type": "ndarray",
+     "test": [[1.0, 2.0, 2.0], [1e6, -1e6], [3.0, 40.0, 1.0]], "perms": [[1, 2, 0], [1, 0], [0, 1, 2]], "types": ["ndarray", "list"]},
+    {"kind": "kde", "kernel": "cosine", "bandwidth": 2.5, "n": 3, "grid": "density", "train": [[0.0, 1.0, 5.0, 6.0, 6.0]],
+     "train_type": "ndarray", "test": [[0.0, 2.5, 6.0, 8.5]], "perms": [[3, 2, 1, 0]], "types": ["ndarray", "list"]},
 ]
 
 
@@ -174,7 +309,7 @@ def coq_hist(c, r):
     model of fit)."""
     bins = [(from_rat(l), from_rat(rr)) for l, rr in r["bins"]]
     cb = "[" + "; ".join("(%s, %s)" % (coq_ext(l), coq_ext(rr)) for l, rr in bins) + "]"
-    tests = "[" + "; ".join(coq_qlist([Fraction(x) for x in s]) for s in c["test"]) + "]"
+    tests = "[" + "; ".join(coq_seq_q(s) for s in c["test"]) + "]"
     a0, a1 = coq_ext(frac(c["a0"])), coq_ext(frac(c["a1"]))
     outl = C.coq_bool(c["outlier"])
     if c["strategy"] == "uniform":
@@ -217,10 +352,10 @@ def hist_oracle(c, r):
     if not r["fit_returns_self"]:
         bad.append(("fit did not return self", None))
     for t, rows in r["rows"].items():
-        if len(rows) != len(c["test"]):
-            bad.append(("%s: %d rows for %d sequences" % (t, len(rows), len(c["test"])), None))
+        if len(rows) != len(tests_of(c)):
+            bad.append(("%s: %d rows for %d sequences" % (t, len(rows), len(tests_of(c))), None))
             continue
-        for i, (seq, row) in enumerate(zip(c["test"], rows)):
+        for i, (seq, row) in enumerate(zip(tests_of(c), rows)):
             xs = [Fraction(x) for x in seq]
             if len(row) != len(bins) or any(v < 0 or v != int(v) for v in row):
                 bad.append(("%s row %d: not a vector of naturals of length #bins: %s" % (t, i, row), None))
@@ -238,32 +373,157 @@ def hist_oracle(c, r):
     return bad
 
 
-def gauss_mean(h, grid, xs):
-    return [sum(math.exp(-0.5 * ((g - x) / h) ** 2) for x in xs) / (len(xs) * h * math.sqrt(2 * math.pi)) for g in grid]
+def kernel_value(kernel, d, h):
+    """The kernels of sklearn's KernelDensity as functions of the distance d >= 0 (written from their definition)."""
+    u = d / h
+    if kernel == "gaussian":
+        return math.exp(-0.5 * (u * u))
+    if kernel == "exponential":
+        return math.exp(-u)
+    if not d < h:
+        return 0.0
+    return {"tophat": 1.0, "epanechnikov": 1 - u * u, "linear": 1 - u, "cosine": math.cos(0.5 * math.pi * u)}[kernel]
+
+
+def kernel_mean(kernel, h, grid, xs):
+    return [math.fsum(kernel_value(kernel, abs(g - x), h) for x in xs) * KNORM[kernel] / (len(xs) * h) for g in grid]
 
 
 def close(a, b, rel, ab):
     return abs(a - b) <= rel * max(abs(a), abs(b)) + ab
 
 
+def rows_close(A, B, rel, ab):
+    return len(A) == len(B) and all(len(a) == len(b) and all(close(x, y, rel, ab) for x, y in zip(a, b)) for a, b in zip(A, B))
+
+
+def near_support_edge(c, h, grid):
+    """tophat is discontinuous at distance h: a value within a few ulps of that distance (but not exactly on it) may
+    fall on either side depending on how the distance is rounded; such rows are not compared for that kernel."""
+    if c.get("kernel") != "tophat":
+        return set()
+    skip = set()
+    for i, seq in enumerate(tests_of(c)):
+        if len(seq) > 200:
+            continue
+        for x in seq:
+            for g in grid:
+                d = abs(g - x)
+                if d != h and abs(d - h) <= 8 * math.ulp(max(abs(g), abs(x), h)):
+                    skip.add(i)
+    return skip
+
+
 def kde_oracle(c, r):
     bad = []
     h, grid = r["bandwidth"], r["grid"]
+    kernel = c.get("kernel", "gaussian")
     if not (h > 0 and math.isfinite(h)):
         return [("bandwidth not positive", h)]
+    if not r["fit_returns_self"]:
+        bad.append(("fit did not return self", None))
     if len(grid) != c["n"]:
         bad.append(("grid size", len(grid)))
-    for i, (seq, row, prow) in enumerate(zip(c["test"], r["rows"], r["perm_rows"])):
+    flat = [x for s in c["train"] for x in s]
+    if any(not (min(flat) <= g <= max(flat)) for g in grid) or any(a > b for a, b in zip(grid, grid[1:])):
+        bad.append(("evaluation grid not increasing inside [min, max] of the training values: %s" % grid, None))
+    skip = near_support_edge(c, h, grid)
+    if len(r["rows"]) != len(tests_of(c)):
+        return bad + [("%d rows for %d sequences" % (len(r["rows"]), len(tests_of(c))), None)]
+    for i, (seq, row, prow, drow, rrow) in enumerate(zip(tests_of(c), r["rows"], r["perm_rows"], r["dup_rows"], r["rev_rows"])):
+        show = seq if len(seq) <= 40 else {"length": len(seq), "spec": c["test"][i]}
         if len(row) != len(grid) or any((not math.isfinite(v)) or v < 0 for v in row):
             bad.append(("row %d has negative / non-finite entries or wrong length: %s" % (i, row), None))
             continue
-        if any(not close(a, b, 1e-12, 1e-300) for a, b in zip(row, prow)):
-            bad.append(("row %d changes under a permutation of the sample: %s vs %s" % (i, row, prow),
-                        {"seq": seq, "perm": c["perms"][i]}))
-        want = gauss_mean(h, grid, seq)
-        if any(not close(a, b, 1e-9, 1e-290) for a, b in zip(row, want)):
-            bad.append(("row %d is not the mean of Gaussians of bandwidth %r: %s vs %s" % (i, h, row, want), {"seq": seq}))
+        if i in skip:
+            continue
+        if any(not close(a, b, KTOL["perm_rel"], KTOL["perm_abs"]) for a, b in zip(row, prow)):
+            bad.append(("row %d (%d values) changes under a permutation of the sample: %s vs %s" % (i, len(seq), row, prow),
+                        {"seq": show, "perm": c["perms"][i]}))
+        if any(not close(a, b, KTOL["perm_rel"], KTOL["perm_abs"]) for a, b in zip(row, rrow)):
+            bad.append(("row %d (%d values) changes when the sample is reversed: %s vs %s" % (i, len(seq), row, rrow), {"seq": show}))
+        if any(not close(a, b, KTOL["perm_rel"], KTOL["perm_abs"]) for a, b in zip(row, drow)):
+            bad.append(("row %d changes when every value of the sample is repeated twice (same empirical distribution): %s vs %s"
+                        % (i, row, drow), {"seq": show}))
+        want = kernel_mean(kernel, h, grid, seq)
+        if any(not close(a, b, KTOL["row_rel"], KTOL["row_abs"]) for a, b in zip(row, want)):
+            bad.append(("row %d (%d values) is not the mean of %s kernels of bandwidth %r on the fitted grid: %s vs %s"
+                        % (i, len(seq), kernel, h, row, want), {"seq": show}))
+    for t, rows in r["rows_by_type"].items():
+        if len(rows) != len(r["rows"]) or any(i not in skip and not rows_close([a], [b], KTOL["perm_rel"], KTOL["perm_abs"])
+                                               for i, (a, b) in enumerate(zip(rows, r["rows"]))):
+            bad.append(("rows for %s sequences differ from the rows for ndarray sequences: %s vs %s" % (t, rows, r["rows"]), None))
+    if any(i not in skip and not rows_close([a], [b], KTOL["perm_rel"], KTOL["perm_abs"])
+           for i, (a, b) in enumerate(zip(r["rows_single"], r["rows"]))):
+        bad.append(("transform of all sequences differs from one call per sequence", None))
     return bad
+
+
+# ------------------------------------------------------------------ KDE: the model executed in Coq
+def hx(v):
+    return fcoq(float(v).hex())
+
+
+def coq_kde(c, r):
+    """(rows of the binary64 model on the implementation's grid / bandwidth, model of the fitted grid (exact rationals),
+    model of the bandwidth candidates, model of the selection among the implementation's candidates)"""
+    kern = c.get("kernel", "gaussian").capitalize()
+    tests = "[" + "; ".join(coq_seq_f(s) for s in c["test"]) + "]"
+    rows = "f_kde_transform %s %s %s %s" % (kern, hx(r["bandwidth"]), flist([float(g).hex() for g in r["grid"]]), tests)
+    flat = [x for s in c["train"] for x in s]
+    grid = "enc_qs (kde_fit_grid %s %s %d%%nat)" % (C.coq_bool(c["grid"] == "density"), coq_qlist([Fraction(x) for x in flat]), c["n"])
+    if c["bandwidth"] is None:
+        lens = "[" + "; ".join("%d%%nat" % len(s) for s in c["train"]) + "]"
+        cands = "unopt (f_bw_candidates %s %s)" % (flist([float(x).hex() for x in flat]), lens)
+        sel = "[f_bw_select %s %s]" % (flist([float(x).hex() for x in r["cands"]]), flist([float(x).hex() for x in r["lik"]]))
+    else:
+        cands, sel = "(@nil SpecFloat.spec_float)", "(@nil SpecFloat.spec_float)"
+    return "(%s, %s, %s, %s)" % (rows, grid, cands, sel)
+
+
+def kde_correspondence(c, r, m):
+    """list of (what, impl, model) disagreements between Model/K15_KDEexec.v and kde_vectorizer.py for one case"""
+    out = []
+    mrows, mgrid, mcands, msel = m
+    mrows = [[sf2float(v) for v in row] for row in mrows]
+    skip = near_support_edge(c, r["bandwidth"], r["grid"])
+    for i, (a, b) in enumerate(zip(r["rows"], mrows)):
+        if i not in skip and not rows_close([a], [b], KTOL["row_rel"], KTOL["row_abs"]):
+            out.append(("transform row %d (kernel %s)" % (i, c.get("kernel")), a, b))
+    if len(mrows) != len(r["rows"]):
+        out.append(("number of rows", len(r["rows"]), len(mrows)))
+    mg = [Fraction(n, d) for n, d in mgrid]
+    scale = max([1.0] + [abs(x) for s in c["train"] for x in s])
+    if len(mg) != len(r["grid"]) or any(abs(Fraction(g) - q) > Fraction(KTOL["grid_rel"]) * Fraction(scale) for g, q in zip(r["grid"], mg)):
+        out.append(("evaluation_grid_ (%s)" % c["grid"], r["grid"], [float(q) for q in mg]))
+    if c["bandwidth"] is None:
+        mc = [sf2float(v) for v in mcands]
+        if len(mc) != len(r["cands"] or []) or any(not close(a, b, KTOL["cands_rel"], 0.0) for a, b in zip(r["cands"], mc)):
+            out.append(("bandwidth candidates handed to the jack-knife search", r["cands"], mc))
+        if [sf2float(v) for v in msel] != [r["bandwidth"]]:
+            out.append(("bandwidth_ = candidates[argmax(likelihoods)]", r["bandwidth"], [sf2float(v) for v in msel]))
+    elif r["bandwidth"] != c["bandwidth"]:
+        out.append(("bandwidth_ = bandwidth", r["bandwidth"], c["bandwidth"]))
+    return out
+
+
+COS_POINTS = [0.0, 1e-9, 0.1, 0.5, 0.7853981633974483, 1.0, 1.3, 1.5, 1.5707963267948966]
+EXP_POINTS = [-745.0, -700.0, -30.25, -8.0, -1.0, -1e-9, 0.0, 0.3, 1.0, 2.302585092994046]
+
+
+def check_transcendentals(ctx):
+    vals = C.coq_eval("C20tr", KHEADER, ["out (f_cos %s)" % hx(p) for p in COS_POINTS] + ["out (f_exp %s)" % hx(p) for p in EXP_POINTS]
+                      + ["out (f_ln %s)" % hx(p) for p in (0.25, 3.0, 10.0)])
+    refs = [math.cos(p) for p in COS_POINTS] + [math.exp(p) for p in EXP_POINTS] + [math.log(p) for p in (0.25, 3.0, 10.0)]
+    worst = 0.0
+    for k, (v, ref) in enumerate(zip(vals, refs)):
+        got = sf2float(v)
+        # cos near pi/2 and exp in the subnormal range: absolute error; otherwise relative
+        worst = max(worst, abs(got - ref) if (k < len(COS_POINTS) or abs(ref) < 1e-300) else abs(got - ref) / abs(ref))
+    ctx.coverage["model_cos_exp_ln_vs_libm_max_err"] = worst
+    if worst > KTOL["transcendental_rel"]:
+        ctx.report("f_cos (Model/K15_KDE_Float.v) / f_exp / f_ln deviate from libm by %.3g" % worst,
+                   {"stage": "correspondence", "correspondence": "f_cos, f_exp, f_ln <-> math.cos, math.exp, math.log"}, found_input=False)
 
 
 def bins_close(model, impl, exact):
@@ -282,24 +542,43 @@ def bins_close(model, impl, exact):
 
 # ------------------------------------------------------------------ run
 def run(ctx, replay=None):
-    C.run_gate(ctx)
-    n_h, n_k = (260, 60) if ctx.quick else (3000, 500)
+    C.run_gate(ctx, extra_props=["C20_kde"])
+    n_h, n_k = (260, 150) if ctx.quick else (3000, 1500)
     if replay:
         cases = [replay["case"]]
     else:
         cases = CORPUS + [gen_hist(ctx.rng) for _ in range(n_h)] + [gen_kde(ctx.rng) for _ in range(n_k)]
+        # in EVERY run: sequences of more than 1000 values, of lengths that are not a multiple of a likely block size
+        reps = 1 if ctx.quick else 4
+        for _ in range(reps):
+            cases += [gen_kde_long(ctx.rng, n) for n in LONG_LENGTHS + ctx.rng.sample(MORE_LENGTHS, 3)]
+            cases += [gen_hist_long(ctx.rng, n) for n in [5000, 1025] + ctx.rng.sample(MORE_LENGTHS, 2)]
     ctx.coverage["rule"] = ("random (strategy, n_components, absolute_range incl. +-inf and == training min/max, outlier bins, "
                             "training collection, test sequences with values on edges / extremes / one ulp beside them / far "
-                            "outside, input type) histogram cases + KDE cases (bandwidth given or estimated, grid strategy, "
-                            "permuted samples); non-trivial = at least one test value; distinct by case hash")
+                            "outside, input type) histogram cases + KDE cases (kernel among the six of KernelDensity, bandwidth "
+                            "given or estimated, grid strategy, n_components incl. 1, list / ndarray / tuple / float32 / int "
+                            "sequences, single-value sequences, long sequences (1025, 1500, 2500, 5000 values and lengths one above / at powers "
+                            "of two, for KDE and histogram rows, in every run), duplicated values, values exactly at distance h of a grid point "
+                            "and one ulp beside, values far outside the grid, permuted, reversed and doubled samples); non-trivial = at "
+                            "least one test value; distinct by case hash")
     ctx.assumptions += ["bin edges / values are binary64 floats read as exact rationals (float.as_integer_ratio); no NaN / inf values",
                         "pd.interval_range's linspace, np.cumsum and bin_range*k of find_bin_boundaries are floating point: "
                         "the uniform edges are compared with the exact model at 1e-12 relative, the quantile float data are passed "
                         "to the model as data; the chain hypothesis is checked exactly on the implementation's edges",
-                        "KernelDensity is an oracle: rows compared with the mean-of-Gaussians formula at 1e-9 relative and "
-                        "under permutation at 1e-12 relative; the KDE model itself is proved over R and not executed",
+                        "KDE: the row model (Model/K15_KDEexec.v) is executed in Coq over binary64 (exp / ln / cos = the series of "
+                        "Model/K13_Float.v, K12_Float.v, K15_KDE_Float.v, compared with libm on every run) on the fitted grid and "
+                        "bandwidth read from the estimator; rows compared at %(row_rel)g relative + %(row_abs)g absolute (sklearn "
+                        "sums in log space with rtol = atol = 0: exact up to rounding), under permutation / doubling of the sample "
+                        "at %(perm_rel)g relative; the exact-rational model of the fitted grid (np.linspace / np.quantile) is "
+                        "compared with evaluation_grid_ at %(grid_rel)g of the data scale; the binary64 model of the 50 bandwidth "
+                        "candidates at %(cands_rel)g relative; bandwidth_ must be exactly candidates[argmax(likelihoods)] for the "
+                        "likelihoods the jack-knife search returned (that search, KernelDensity's tree included, is an oracle)" % KTOL,
+                        "KDE: tophat rows with a value within 8 ulp of (but not on) the support edge |x - g| = h are not compared",
+                        "KDE: sequences have >= 1 value (>= 2 in training when the bandwidth is estimated: the jack-knife leaves one out)",
                         "quantile strategy only on non-negative data with a positive total (property text)",
                         "training data has at least two distinct values strictly inside the absolute range"]
+    if not replay:
+        check_transcendentals(ctx)
     impl, info = C.run_impl("c20", cases)
     if impl is None or len(impl) != len(cases):
         done = len(impl) if impl else 0
@@ -307,16 +586,22 @@ def run(ctx, replay=None):
                    {"stage": "impl-crash", "case": cases[done] if done < len(cases) else None}, found_input=True)
         impl = (impl or []) + [{"err": "crash"}] * (len(cases) - done)
     hist_idx = [i for i, (c, r) in enumerate(zip(cases, impl)) if c["kind"] == "hist" and "ok" in r]
-    model = C.coq_eval_sharded("C20", HEADER, [coq_hist(cases[i], impl[i]["ok"]) for i in hist_idx], shard=60)
+    kde_idx = [i for i, (c, r) in enumerate(zip(cases, impl)) if c["kind"] == "kde" and "ok" in r]
+    from concurrent.futures import ThreadPoolExecutor
+    with ThreadPoolExecutor(max_workers=2) as ex:
+        fh = ex.submit(C.coq_eval_sharded, "C20", HEADER, [coq_hist(cases[i], impl[i]["ok"]) for i in hist_idx], 60)
+        fk = ex.submit(C.coq_eval_sharded, "C20k", KHEADER, [coq_kde(cases[i], impl[i]["ok"]) for i in kde_idx], 40)
+        model, kmodel = fh.result(), fk.result()
     model_of = dict(zip(hist_idx, model))
-    corr_bad, n_corr, n_oracle = [], 0, 0
+    kmodel_of = dict(zip(kde_idx, kmodel))
+    corr_bad, n_corr, n_oracle, n_kcorr, n_krows, n_klong, n_hlong = [], 0, 0, 0, 0, 0, 0
     for i, (c, r) in enumerate(zip(cases, impl)):
-        nval = sum(len(s) for s in c["test"])
+        nval = sum(len(s) for s in tests_of(c))
         if c["kind"] == "hist":
             rk = "default" if (c["a0"], c["a1"]) == (NINF, INF) else "finite" if NINF != c["a0"] and INF != c["a1"] else "half"
             kind = "hist:%s:%s:%s" % (c["strategy"], rk, "outlier" if c["outlier"] else "expand")
         else:
-            kind = "kde:%s:%s" % (c["grid"], "bw-estimated" if c["bandwidth"] is None else "bw-given")
+            kind = "kde:%s:%s:%s" % (c.get("kernel", "gaussian"), c["grid"], "bw-estimated" if c["bandwidth"] is None else "bw-given")
         ctx.count_case(c, nontrivial=nval > 0, kind=kind)
         if "ok" not in r:
             if r.get("err") != "crash":
@@ -331,8 +616,14 @@ def run(ctx, replay=None):
                        {"stage": "oracle", "case": c, "failures": bad[:5], "actual": r}, found_input=True)
             continue
         if c["kind"] != "hist":
+            n_kcorr += 1
+            n_krows += len(c["test"])
+            n_klong += sum(1 for s in tests_of(c) if len(s) > 1000)
+            for what, got, want in kde_correspondence(c, r, kmodel_of[i]):
+                corr_bad.append((c, "KDE " + what, got, want))
             continue
         n_corr += 1
+        n_hlong += sum(1 for s in tests_of(c) if len(s) > 1000)
         chain_ok, mrows, mfit, mbreaks = model_of[i]
         impl_bins = [(from_rat(l), from_rat(rr)) for l, rr in r["bins"]]
         if chain_ok is not True:
@@ -348,16 +639,24 @@ def run(ctx, replay=None):
         if c["strategy"] == "quantile":
             if [Fraction(n, d) for n, d in mbreaks] != [from_rat(x) for x in r["breaks"]]:
                 corr_bad.append((c, "find_bin_boundaries", r["breaks"], mbreaks))
-    ctx.coverage["correspondence"] = {"cases": n_corr, "disagreements": len(corr_bad),
+    ctx.coverage["correspondence"] = {"cases": n_corr + n_kcorr, "histogram_cases": n_corr, "kde_cases": n_kcorr,
+                                      "kde_rows_executed_in_coq": n_krows, "kde_rows_longer_than_1000_values": n_klong,
+                                      "histogram_rows_longer_than_1000_values": n_hlong, "disagreements": len(corr_bad),
                                       "model": "Model/K15_HistKDE.v via vm_compute (chainb on the implementation's bins, "
-                                               "hist_transform, hist_fit_uniform / find_breaks + hist_fit_breaks)"}
+                                               "hist_transform, hist_fit_uniform / find_breaks + hist_fit_breaks); "
+                                               "Model/K15_KDEexec.v via vm_compute over binary64 (kde_transform_k on the fitted "
+                                               "grid / bandwidth, bw_candidates, bw_select) and exact rationals (kde_fit_grid)",
+                                      "tolerances": KTOL}
     ctx.coverage["oracle"] = {"cases": n_oracle}
-    ctx.coverage["traces_validated_against_impl"] = n_corr
+    ctx.coverage["traces_validated_against_impl"] = n_corr + n_kcorr
     if corr_bad and not any(v["found_input"] for v in ctx.violations):
         c, what, got, want = corr_bad[0]
-        ctx.report("model K15_HistKDE and implementation disagree on %s (no property-level failure found): impl %s, model %s"
-                   % (what, str(got)[:300], str(want)[:300]),
-                   {"stage": "correspondence", "correspondence": "Model/K15_HistKDE.v <-> _vectorizers.py HistogramVectorizer",
+        mod = "K15_KDEexec" if c["kind"] == "kde" else "K15_HistKDE"
+        ctx.report("model %s and implementation disagree on %s (no property-level failure found): impl %s, model %s"
+                   % (mod, what, str(got)[:300], str(want)[:300]),
+                   {"stage": "correspondence",
+                    "correspondence": "Model/%s.v <-> %s" % (mod, "kde_vectorizer.py KDEVectorizer" if c["kind"] == "kde"
+                                                             else "_vectorizers.py HistogramVectorizer"),
                     "case": c, "model": want, "actual": got}, found_input=False)
     C.gate_violation(ctx)
     return ctx.finish("proof")
